@@ -42,7 +42,7 @@ def own(objs, ident, pred=lambda o: True):
 
 def menu_item(rng, objs, ident, version, uniq):
     """Returns (label, op, deterministic)."""
-    k = rng.randrange(26)
+    k = rng.randrange(31)
     mine = own(objs, ident)
     others = [o for o in objs if o.owner != ident[0] and o.policy == 'default']
     pre = [o for o in mine if o.state == 'pre']
@@ -106,6 +106,22 @@ def menu_item(rng, objs, ident, version, uniq):
         return 'F_set_name', op_set_attribute(rng.choice(mine).uid, A.NAME, name_value(name))
     if k == 24 and mine and version < (2, 0):
         return 'delete_name0', op_delete_attribute_1x(rng.choice(mine).uid, 'Name', 0)
+    # creating operations whose template passes the early checks and fails only when the attributes are applied
+    # (a name given twice): whatever they built by then must not reach the store through a later item's commit
+    dup = [rig.attr(A.NAME, name_value(name), 0), rig.attr(A.NAME, name_value(name), 0)]
+    if k == 25:
+        return 'F_ckp_dupnames_private', op_create_key_pair(priv=dup)
+    if k == 26:
+        return 'F_ckp_dupnames_public', op_create_key_pair(pub=dup)
+    if k == 27:
+        return 'F_ckp_dupnames_common', op_create_key_pair(common=dup)
+    if k == 28:
+        return 'F_create_dupnames', op_create(names=[name, name])
+    if k == 29 and mine:
+        base = [o for o in mine if o.kind == 'sym']
+        if base:
+            return 'F_derive_dupnames', op_derive_key([rng.choice(base).uid], attributes_list=sym_attrs(
+                length=128, masks=ALL_MASKS, names=[name, name]))
     # random well-formed operation, restricted to deterministic responses
     opn = rng.choice([o for o in G.OPS if o not in ('encrypt', 'create_key_pair', 'sign')])
     return 'rnd_' + opn, G.random_op(rng, version, objs, opn)[1]
